@@ -1,1 +1,6 @@
 use crate::stdlib::num::NonZeroU64;
+impl Context {
+    /// precision / rounding mode of a context (ghost accessors)
+    pub closed spec fn p(&self) -> u64 { nz64(self.precision) }
+    pub closed spec fn m(&self) -> RoundingMode { self.rounding }
+}
